@@ -11,7 +11,7 @@ TEXT = {
             "§7 C01"),
     "C02": ("Lean theorem C02_graph_eq_general: for every table, string and flag combination the decoder model's graph equals the graph of Spec/Derivation.lean - an independent, executable rendering of derivation.rst (count-down budget, declarative symbol classes, bond-list molecule, second-pass ring formation) - and the error classes agree (C02_reject_iff), for every result other than RecursionError (finding F2). 45 documented examples are kernel-checked against the spec. Tie: the real decoder is compared on every string <= 3/4 symbols over 28 symbols under 4 tables, plus sampled streams, BOTH with the model and with the independent spec through the driver.",
             "§7 C02"),
-    "C03": ("Lean theorems C03_decode_encode / C03_roundtrip_graph / C03_roundtrip: for every parsed, kekulized graph that obeys the table (decidable hypotheses ParsedWF, ObeysTable, SpanOK < 16^3, depth < recursion budget), encoding then decoding yields the same atoms in the same order and the same bonded pairs with the same orders (SameMolecule), with each atom's neighbour order = ring bonds in formation order then chain bonds (C03_neighbour_order) - a theorem about graphs, i.e. about every spelling at once; staged versions C03_chain, C03_tree. Tie: correspondence of parser, kekulization (recorded tape), encoder, decoder on datasets, re-spellings (incl. ring digits behind branches), random trees, long spans; the independent reader judges the real round trip.",
+    "C03": ("Lean theorems C03_decode_encode / C03_roundtrip_graph and, at the level of strings, C03p_roundtrip_strings (every SMILES the strict encoder accepts; the parser is PROVED to establish the graph hypotheses: C03p_parser_pwf, C03p_parser_forest, C03p_kekulized_ready; remaining hypotheses: spans < 16^3, nesting depth < recursion budget, length <= 10^4300): for every parsed, kekulized graph that obeys the table, encoding then decoding yields the same atoms in the same order and the same bonded pairs with the same orders (SameMolecule), with each atom's neighbour order = ring bonds in formation order then chain bonds (C03_neighbour_order) - a theorem about graphs, i.e. about every spelling at once; staged versions C03_chain, C03_tree. Tie: correspondence of parser, kekulization (recorded tape), encoder, decoder on datasets, re-spellings (incl. ring digits behind branches), random trees, long spans; the independent reader judges the real round trip.",
             "§7 C03"),
     "C04": ("Lean theorems C04_parity_spec / C04_parity_eq (the encoder's chirality flip is exactly the parity of the permutation between the written neighbour order and the decoder's order, for every graph), C04_inversions_parity (inversion count = transposition parity), C04_ring_marks / C04_chain_marks (every '/' '\\' mark is carried by the emitted symbol and read back on the right end; decide over the regenerated ring table). The decoder-side half of the end-to-end statement is carried by correspondence and by the independent handedness oracle on the real round trip.",
             "§7 C04"),
@@ -23,7 +23,7 @@ TEXT = {
             "§7 C07"),
     "C08": ("Lean theorems C08_graph_total / C08_total_partial: for EVERY str, table and flag combination the decoder model returns, raises DecoderError, or raises RecursionError (deep nesting, finding F2) - every IndexError / KeyError / AttributeError / AssertionError / ValueError branch of the Python-semantics layer and fuel exhaustion (non-termination) are proved unreachable, for derivation, ring pass and writer; C08_no_recursion_error_if_shallow. Tie: exception class and result on malformed / arbitrary str x 4 flag combinations, and on table-dependent symbols decoded across a sequence of table changes, vs the model; constraint state compared before/after.",
             "§7 C08"),
-    "C09": ("Exception class and result of encoder on malformed / arbitrary str x 4 flag combinations compared with the Lean model (explicit failures for every list/dict/assert/next primitive). The totality theorem is not proved yet (false without hypotheses: finding F2).",
+    "C09": ("Lean theorems C09_parse_total (the parser returns a graph or SMILESParserError: no IndexError / AttributeError / AssertionError, fuel suffices), C09_kekulize_total, C09_matching_total (also downstream of a non-matching nothing but the documented outcomes is reachable), C09_emit_total, C09_total_partial: for EVERY str, table, flags and legal choice tape the encoder model returns, raises EncoderError, or raises RecursionError (deep nesting, finding F2: C09_recursionError_witness); C09_no_recursion_error_if_shallow. Tie: exception class and result on malformed / arbitrary str x 4 flag combinations vs the model, and the parser's graph itself (atoms, adjacency with placeholders, counts, delocalisation subgraph) vs the model's graph.",
             "§7 C09"),
     "C10": ("Lean theorems C10_atom_symbol_accepted (every atom the SMILES reader produces is spelled as a symbol the SELFIES reader maps back to the same atom and bond info, for all isotopes/charges/H counts/elements/prefixes, tokens up to 10^4300 characters), C10_standardised + the spelling families (sign runs, H/H1, leading zeros, atom class), C10_branch_ring_symbols_accepted (n < 16^3) and the limit C10_branch_ring_limit, C10_atom_symbol_dispatch; with C03_roundtrip the emitted string decodes. Tie: structured families of bracket atoms through both readers vs the model; chain encoder -> decoder -> encoder on the real code.",
             "§7 C10"),
@@ -33,7 +33,7 @@ TEXT = {
             "§7 C12"),
     "C13": ("Lean theorem C13_nop_invisible (and the stronger _items forms): for every well-formed item list and every insertion of [nop] symbols, all four flag combinations, the decoder model returns the same result (including attribution). Tied by decoder correspondence and by the equality on the real code.",
             "§7 C13"),
-    "C14": ("Lean theorems C14_split_render, C14_concat, C14_len, C14_alphabet, C14_decoder_tokens for every well-formed item list (unbounded). Tied by correspondence of the three utilities on generated well-formed and malformed strings; encoder output well-formedness by oracle.",
+    "C14": ("Lean theorems C14_split_render, C14_concat, C14_len, C14_alphabet, C14_decoder_tokens for every well-formed item list (unbounded), and C14e_encoder_output_wf / C14e_decoder_consumes / C14e_no_dot_edge: every string the encoder model returns, for every table, SMILES, flags and tape, is well formed and the decoder consumes exactly its symbols. Tie: correspondence of the three utilities on generated well-formed and malformed strings; encoder outputs checked on the real code.",
             "§7 C14"),
     "C15": ("Lean theorems C15_label, C15_onehot_rows, C15_inverse_label, C15_inverse_onehot, C15_batch_pointwise, C15_batch_inverse, C15_errors for every vocabulary bijection, string over it and pad length. Tied by correspondence over generated vocabularies / strings / pads / enc_type values.",
             "§7 C15"),
